@@ -856,3 +856,39 @@ def summarize_outcome(o: ActionOutcome):
                 connect=n_connect, newsock=n_newsock, timer=timer, send_src=frozenset(send_src),
                 order=tuple(order), n_send=sum(1 for e in o.effects if e[0] == 'send'),
                 n_indicate=sum(1 for e in o.effects if e[0] == 'indicate'))
+
+
+NO_PENDING_INPUT_STATES = ('STA_1', 'STA_2', 'STA_4', 'STA_13')
+
+
+def entered_states(conds, repo) -> Optional[Set[str]]:
+    """The set of states a path is confined to by a positive test on the state *being entered* -- the value an action returned
+    (``self.transition_table...()``) compared with a state constant or tested for membership in a constant collection of
+    states.  None when the path carries no such test."""
+    from .provider_model import parse_cond
+    fsm_mod = repo.module('fsm')
+    states = repo.cls('fsm', 'States')
+    by_value = {}
+    for name, val in states.attrs.items():
+        v = repo.try_fold(val, fsm_mod, states)
+        if isinstance(v, int) and name.startswith('STA_'):
+            by_value[int(v)] = name
+    found: Optional[Set[str]] = None
+    for c in conds:
+        pol, e = parse_cond(c)
+        if e is None or not (isinstance(e, ast.Compare) and len(e.ops) == 1):
+            continue
+        op, l, r = e.ops[0], e.left, e.comparators[0]
+        if not (isinstance(l, ast.Call) and 'transition_table' in ast.unparse(l)):
+            continue
+        if (isinstance(op, ast.In) and pol) or (isinstance(op, ast.NotIn) and not pol):
+            coll = repo.try_fold(r, fsm_mod, None)
+            if isinstance(coll, (set, frozenset, tuple, list)) and all(isinstance(x, int) for x in coll):
+                names = {by_value.get(int(x), 'state %r' % (x,)) for x in coll}
+                found = names if found is None else (found & names)
+        elif (isinstance(op, ast.Eq) and pol) or (isinstance(op, ast.NotEq) and not pol):
+            v = repo.try_fold(r, fsm_mod, None)
+            if isinstance(v, int):
+                names = {by_value.get(int(v), 'state %r' % (v,))}
+                found = names if found is None else (found & names)
+    return found
